@@ -612,12 +612,23 @@ def py_z3(node, env):
     raise Untranslatable(ast.dump(node)[:60])
 
 
+_MUL = ("*", "/", "//", "%")
+CHAINS = (
+    [("N", a, x, b, "-", y) for a in _MUL for b in _MUL for x in ("2", "3", "M") for y in ("2", "3", "M")]
+    + [("N", a, x, b, "(", "-", y, ")") for a in ("//", "%") for b in ("//", "%") for x in ("2", "M") for y in ("2", "3")]
+    + [("-", "N", a, x, b, "-", y) for a in ("//", "%") for b in ("//", "%") for x in ("2", "3") for y in ("2", "3")]
+    + [("N", a, "M", b, x, c, "-", y) for a in ("+", "-") for b in _MUL for c in _MUL for x in ("2",) for y in ("3",)]
+)
+
+
 def check_strings(chk, L, st, parse, shard, nshards):
     """Every token string of length <= L that Python accepts as an expression of the documented grammar."""
     undecided = 0
     idx = 0
-    for n in range(1, L + 1):
-        for toks in itertools.product(TOKENS, repeat=n):
+    for n in range(1, L + 2):
+        # n == L + 1: not the full product but the targeted family CHAINS (left-associative chains of same-precedence
+        # operators whose last operand is negated or parenthesised-negative), which the length bound would otherwise cut off
+        for toks in (itertools.product(TOKENS, repeat=n) if n <= L else [c for c in CHAINS if len(c) > L]):
             idx += 1
             if idx % nshards != shard:
                 continue
